@@ -120,12 +120,30 @@ def call_extern(ex, f, e):
     mod, name = f.module, f.name
     args, kw = args_of(ex, e)
     if mod == 'json' and name == 'dumps':
+        from . import external
         v = as_val(args[0])
         ex.safe(is_str(v), 'Unsupported', 'json.dumps of a str', e)
-        extra = {k: x for k, x in kw.items()}
-        if extra:
-            raise Unsupported('json.dumps keyword arguments')
-        return V(VStr(vl.json_dumps_str(get_s(v))))
+        raw = False
+        for k, x in kw.items():
+            if k == 'ensure_ascii' and static_kind(as_val(x)) == 'VBool' and z3.is_false(as_val(x).arg(0)):
+                raw = True
+            elif k == 'ensure_ascii' and static_kind(as_val(x)) == 'VBool':
+                pass
+            else:
+                raise Unsupported('json.dumps keyword argument %s' % k)
+        return V(VStr((external.json_dumps_raw if raw else vl.json_dumps_str)(get_s(v))))
+    if mod == 'json' and name == 'loads':
+        from . import external
+        v = as_val(args[0])
+        ex.safe(is_str(v), 'TypeError', 'json.loads of a str', e)
+        pc_kw = kw.get('parse_constant')
+        if set(kw) - {'parse_constant'} or not (isinstance(pc_kw, SFunc) and pc_kw.kind == 'builtin' and pc_kw.name == 'str'):
+            raise Unsupported('json.loads without parse_constant=str (assumed contract T4 covers only that form)')
+        s_ = get_s(v)
+        for ax in external.loads_axioms(s_):
+            ex.assume(ax)
+        ex.safe(external.json_ok(s_), 'JSONDecodeError', 'json.loads', e)
+        return V(external.json_val(s_))
     if mod == 'copy' and name == 'deepcopy':
         return args[0] if isinstance(args[0], V) else deep_copy(ex, args[0])
     if mod == 're' and name == 'match':
@@ -577,6 +595,15 @@ def bi_str_of(ex, e):
 
 def bi_json_dumps(ex, e):
     return V(VStr(vl.json_dumps_str(get_s(ex.evv(e.args[0])))))
+
+
+def bi_json_container(ex, e):
+    """json.loads accepts the text and yields a list or a dict"""
+    from . import external
+    s_ = get_s(ex.evv(e.args[0]))
+    v = external.json_val(s_)
+    return mk_bool(z3.And(external.json_ok(s_), z3.Or(is_list(v), is_obj(v)),
+                          z3.Not(z3.Or(s_ == S('true'), s_ == S('false'), s_ == S('null')))))
 
 
 def bi_in_re(ex, e):
